@@ -1647,6 +1647,12 @@ def lookalike_units(doc, u, k):
     return cands[k % len(cands)] if cands else 'nosuchunit'
 
 
+def builtin_override_sites():
+    """every built-in unit name x {derived, new base unit} x {used by a variable, unused}"""
+    return [['builtin_override', n, form, used] for n in sorted(CELLML_BUILTINS) for form in ('derived', 'base')
+            for used in (True, False)]
+
+
 def fault_sites(doc):
     """every (class, site) applicable to this valid document"""
     out = []
@@ -1938,9 +1944,18 @@ def apply_fault(doc, f):
         if d.get('order'):
             d['order'].append(['units', len(d['units']) - 1])
     elif k == 'builtin_override':
-        d['units'].append(_def('volt', [_child('second')]))
+        # ['builtin_override'] or ['builtin_override', name, 'derived' | 'base', used]
+        name = f[1] if len(f) > 1 else 'volt'
+        form = f[2] if len(f) > 2 else 'derived'
+        child = 'second' if name != 'second' else 'metre'
+        d['units'].append(_def(name, base='yes') if form == 'base' else _def(name, [_child(child)]))
         if d.get('order'):
             d['order'].append(['units', len(d['units']) - 1])
+        if len(f) > 3 and f[3]:
+            # a fresh, unconnected variable declared in the redefined unit
+            c = [x for x in d['comps'] if x['vars']][0]
+            c['vars'].append({'name': 'bu_user', 'units': name, 'init': '1', 'pub': 'none', 'priv': 'none', 'cmeta': None,
+                              'dim': '?', 'role': 'const', 'owner': None})
     else:
         raise ValueError(k)
     d.setdefault('faults', []).append(f)
